@@ -192,6 +192,10 @@ def judge(case, obs, model):
         elif r["same"] is False:
             issues.append(Issue("oracle", {"at": r["at"], "out": r["out"]}, "cancellation-replaced-by-copy:" + tag_tool))
         leaked = [i for i, s in enumerate(r["srcs"]) if s["released"] is False]
+        if r["token"] and r["token"][0] == "close":
+            # the library did call aclose() on that source; that the user's aclose() let the cancellation interrupt it
+            # before it finished is the user's code - every OTHER source must be released
+            leaked = [i for i in leaked if i != r["token"][1]]
         if leaked and r["token"] and r["token"][0] == "close":
             issues.append(Issue("oracle", {"at": r["at"], "token": r["token"], "leaked": leaked},
                                 "source-leaked-cancel-inside-user-aclose:" + tag_tool))
